@@ -465,3 +465,8 @@ PROPS["C10"]["level_text"] += (
 PROPS["C18"]["level_text"] += (
     " Linked to intake (Parser/ViewValidatedProofs.v): the validator model is the very function the parser model applies to the patches "
     "decoded from request bytes (delta_loop_agrees), so the C18 rules hold for every request the parser model accepts.")
+PROPS["C11"]["level_text"] += (
+    " From bytes: the view of the request the real builder returned is ALSO computed inside Coq from the request bytes "
+    "(decoder model, Parser/ViewOfBytes.v) and must equal both the harness's decoding and the builder model's view, for every "
+    "case; what remains a fact is the validator verdict per decoded patch.")
+PROPS["C11"]["coq_dirs"] = PROPS["C11"]["coq_dirs"] + ["Json"]
